@@ -190,7 +190,16 @@ def figure_fingerprint(x):
             except Exception:
                 pass
             a["patches"].append(d)
+        try:
+            leg = ax.get_legend()
+            a["legend"] = None if leg is None else [t.get_text() for t in leg.get_texts()]
+        except Exception:
+            a["legend"] = "unreadable"
         out["axes"].append(a)
+    try:
+        out["fig_legends"] = [[t.get_text() for t in lg.get_texts()] for lg in fig.legends]
+    except Exception:
+        pass
     # seaborn ClusterGrid extras
     for name in ("data2d",):
         if hasattr(x, name):
